@@ -38,6 +38,7 @@ func genC04(t *rapid.T) C04Case {
 		cfg.StringCalls = true
 		cfg.BlockReturn = true
 		cfg.Attribs = true
+		cfg.DupParams = true
 		cfg.Bitops = true
 		cfg.MaxStats = 8
 		cfg.Prefix = fmt.Sprintf("f%d", i)
@@ -60,6 +61,7 @@ func genC04(t *rapid.T) C04Case {
 
 var (
 	reNotDefine = regexp.MustCompile(`var not define: (?:_G\.)?([A-Za-z_][A-Za-z0-9_]*)`)
+	reDupParam  = regexp.MustCompile(`duplicate var:'([A-Za-z_][A-Za-z0-9_]*)'`)
 	reNotUsed   = regexp.MustCompile(`^\[Warn type:\d+\], ([A-Za-z_][A-Za-z0-9_]*) declared and not used`)
 )
 
@@ -217,6 +219,10 @@ func checkC04(c C04Case, env *Env) *Violation {
 				}
 			case 4, 17:
 				if m := reNotUsed.FindStringSubmatch(d.Message); m != nil {
+					name = m[1]
+				}
+			case 13:
+				if m := reDupParam.FindStringSubmatch(d.Message); m != nil {
 					name = m[1]
 				}
 			}
